@@ -58,7 +58,7 @@ structure ConnInv (k : Conn) : Prop where
   openOk : k.srvClosed = false → ∀ q ∈ k.reqs, q.dispOpen = true ∧ q.st.ok = true
   closedPc : k.rpc = .closed → k.srvClosed = true ∧ k.numInvoke = 0 ∧ k.registered = false
   bufNil : (k.rpc = .top ∨ k.rpc = .reading ∨ k.rpc = .draining ∨ k.rpc = .closed ∨ k.rpc = .unreg ∨
-            k.rpc = .backlog) → k.buf = []
+            k.rpc = .backlog ∨ k.rpc = .drainWait) → k.buf = []
   fresh : (k.rpc = .backlog ∨ k.rpc = .unreg) → k.reqs = [] ∧ k.registered = false
   regPc : k.registered = false → k.rpc = .backlog ∨ k.rpc = .unreg ∨ k.rpc = .closed
 
@@ -204,7 +204,7 @@ theorem good_cRead (n : Nat) : Good (cRead n) := by
 theorem stay_cRead (n : Nat) : Stay (cRead n) := by
   intro k k' h hb; unfold cRead at h; split at h <;> simp at h; rename_i hpc; simp [hpc] at hb
 
-theorem good_cReadErr (b f : Bool) : Good (cReadErr b f) := by
+theorem good_cReadErr (p b f : Bool) : Good (cReadErr p b f) := by
   refine ⟨?_, ?_, ?_⟩ <;> intro k k' h <;> unfold cReadErr at h <;> split at h <;> try contradiction
   all_goals (split at h <;> try contradiction)
   all_goals (simp only [Option.some.injEq] at h; subst h)
@@ -226,7 +226,7 @@ theorem good_cReadErr (b f : Bool) : Good (cReadErr b f) := by
   · intro _ hs; exact hs
   · intro _ hs; exact hs
 
-theorem stay_cReadErr (b f : Bool) : Stay (cReadErr b f) := by
+theorem stay_cReadErr (p b f : Bool) : Stay (cReadErr p b f) := by
   intro k k' h hb; unfold cReadErr at h; split at h <;> try contradiction
   rename_i hpc; simp [hpc] at hb
 
@@ -453,6 +453,23 @@ theorem stay_cDec (i : Nat) : Stay (cDec i) := by
   simp only [Option.some.injEq] at h
   subst h; exact hb
 
+theorem good_cDrainTick : Good cDrainTick := by
+  refine ⟨?_, ?_, ?_⟩ <;> intro k k' h <;> unfold cDrainTick at h <;> split at h <;> try contradiction
+  all_goals (simp only [Option.some.injEq] at h; subst h)
+  all_goals rename_i hpc
+  · intro hi
+    have hb := hi.bufNil (by simp [hpc])
+    refine ⟨hi.count, hi.openOk, by simp, fun _ => hb, by simp, ?_⟩
+    intro hr; have := hi.regPc hr; simp [hpc] at this
+  · refine ⟨id, id, ?_, ?_⟩
+    · intro _; simp [Conn.started]
+    · intro hc; simp [hpc] at hc
+  · intro _ hs; exact hs
+
+theorem stay_cDrainTick : Stay cDrainTick := by
+  intro k k' h hb; unfold cDrainTick at h; split at h <;> try contradiction
+  rename_i hpc; simp [hpc] at hb
+
 theorem good_cDrainClose : Good cDrainClose := by
   refine ⟨?_, ?_, ?_⟩ <;> intro k k' h <;> unfold cDrainClose at h <;> split at h <;> try contradiction
   all_goals (split at h <;> try contradiction)
@@ -587,23 +604,30 @@ theorem stay_cLateWrite (i : Nat) : Stay (cLateWrite i) := by
 
 /-! ### the two functions applied from outside the connection's own goroutines -/
 
+theorem cNotify_keeps' (k : Conn) : (cNotify k).reqs = k.reqs ∧ (cNotify k).srvClosed = k.srvClosed ∧
+    (cNotify k).registered = k.registered ∧ (cNotify k).rpc = k.rpc ∧ (cNotify k).numInvoke = k.numInvoke ∧
+    (cNotify k).buf = k.buf ∧ (k.notified = true → (cNotify k).notified = true) := by
+  unfold cNotify
+  split
+  · exact ⟨rfl, rfl, rfl, rfl, rfl, rfl, fun _ => rfl⟩
+  · split <;> exact ⟨rfl, rfl, rfl, rfl, rfl, rfl, id⟩
+
 theorem connInv_cNotify {k : Conn} (hi : ConnInv k) : ConnInv (cNotify k) := by
-  unfold cNotify; split
-  · exact ⟨hi.count, hi.openOk, hi.closedPc, hi.bufNil, hi.fresh, hi.regPc⟩
-  · exact hi
+  obtain ⟨h1, h2, h3, h4, h5, h6, _⟩ := cNotify_keeps' k
+  refine ⟨by rw [h5, h1]; exact hi.count, by rw [h2, h1]; exact hi.openOk,
+    by rw [h4, h2, h5, h3]; exact hi.closedPc, by rw [h4, h6]; exact hi.bufNil,
+    by rw [h4, h1, h3]; exact hi.fresh, by rw [h3, h4]; exact hi.regPc⟩
 
 theorem connMono_cNotify (k : Conn) : ConnMono k (cNotify k) := by
-  unfold cNotify; split
-  · exact ⟨id, fun _ => rfl, id, id⟩
-  · exact ConnMono.refl k
+  obtain ⟨_, h2, _, h4, _, _, h7⟩ := cNotify_keeps' k
+  refine ⟨by rw [h2]; exact id, h7, ?_, by rw [h4]; exact id⟩
+  unfold Conn.started; rw [h4]; exact id
 
 theorem connSafe_cNotify {k : Conn} (hs : ConnSafe k) : ConnSafe (cNotify k) := by
-  unfold cNotify; split
-  · exact hs
-  · exact hs
+  obtain ⟨h1, h2, _⟩ := cNotify_keeps' k
+  unfold ConnSafe; rw [h1, h2]; exact hs
 
-theorem cNotify_rpc (k : Conn) : (cNotify k).rpc = k.rpc := by
-  unfold cNotify; split <;> rfl
+theorem cNotify_rpc (k : Conn) : (cNotify k).rpc = k.rpc := (cNotify_keeps' k).2.2.2.1
 
 theorem cNotify_notified {k : Conn} (hr : k.registered = true) (ho : k.srvClosed = false) :
     (cNotify k).notified = true := by
